@@ -128,6 +128,20 @@ def fam_c07(tier, seed):
                 sc["tags"] = ["queue", "same-instant", "demote", "recv:" + "+".join(combo)]
                 scs.append(sc)
                 k += 1
+    # unblock() lands in the give-up window of a timed receiver while other receivers are parked; a request follows:
+    # it must reach one of the parked receivers (no stale token may stand in its way)
+    for nparked in (1, 2, 3):
+        for uoff in (T * MS - 300_000, T * MS - 800_000, T * MS):
+            for roff in (T * MS + 2 * MS, T * MS - 100_000):
+                apps = [recvs["timed1"]()]
+                for i in range(nparked):
+                    apps.append({"prog": [{"op": "sleep", "ns": MS}] + R_recv()["prog"]})
+                apps.append(unblocker(uoff, 1))
+                cc = [simple_conn(0, 1, at_ns=roff), simple_conn(1, 1, at_ns=roff + 3 * MS)]
+                sc = scenario("C07-g%03d" % k, "C07", cc, apps, horizon_ms=4 * T + 20, single=False)
+                sc["tags"] = ["queue", "unblock-in-giveup-window", "demote", "parked:%d" % nparked]
+                scs.append(sc)
+                k += 1
     # several pipelined requests of one connection arriving while a single timed receiver is in (or near) its
     # give-up window: it must still get them in wire order
     for combo in (("timed1",), ("timedloop",)):
@@ -945,6 +959,12 @@ def _bad_heads():
         ("expect-case", "r417", b"GET @URL@ HTTP/1.1\r\nHost: x\r\nEXPECT: 100-Continues\r\n\r\n"),
         ("expect-bad-v10", "r417", b"GET @URL@ HTTP/1.0\r\nHost: x\r\nConnection: keep-alive\r\nExpect: 200-ok\r\n\r\n"),
         ("expect-case-v10", "r417", b"POST @URL@ HTTP/1.0\r\nexpect: 100-CONTINUE-please\r\nContent-Length: 0\r\n\r\n"),
+        ("expect-param", "r417", b"GET @URL@ HTTP/1.1\r\nHost: x\r\nExpect: 100-continue;q=1\r\n\r\n"),
+        ("expect-param-case", "r417", b"POST @URL@ HTTP/1.1\r\nHost: x\r\nExpect: 100-Continue; foo=bar\r\nContent-Length: 0\r\n\r\n"),
+        ("expect-param-ws", "r417", b"GET @URL@ HTTP/1.1\r\nHost: x\r\nExpect: 100-CONTINUE ;timeout=5\r\n\r\n"),
+        ("expect-list-same", "r417", b"GET @URL@ HTTP/1.1\r\nHost: x\r\nExpect: 100-continue, 100-continue\r\n\r\n"),
+        ("expect-list-foreign", "r417", b"GET @URL@ HTTP/1.1\r\nHost: x\r\nExpect: 100-continue, 200-ok\r\n\r\n"),
+        ("expect-quoted", "r417", b"GET @URL@ HTTP/1.1\r\nHost: x\r\nExpect: \"100-continue\"\r\n\r\n"),
         ("expect-with-body", "r417", b"POST @URL@ HTTP/1.1\r\nHost: x\r\nExpect: nope\r\nContent-Length: 3\r\n\r\nabc"),
         # the refusal must not wait for a body the client is holding back until it has the verdict
         ("expect-body-withheld-5", "r417", b"POST @URL@ HTTP/1.1\r\nHost: x\r\nExpect: nope\r\nContent-Length: 5\r\n\r\n"),
@@ -1003,6 +1023,11 @@ def fam_c16(tier, seed):
             heads.append(("ws-in-name:%s:%r" % (hname, ws), "GET @URL@ HTTP/1.1\r\nHost: x\r\n%s%s%s: %s\r\n\r\n" % (hname[:3], ws, hname[3:], hval), "name-ws"))
             heads.append(("ws-before-colon:%s:%r" % (hname, ws), "GET @URL@ HTTP/1.1\r\nHost: x\r\n%s%s: %s\r\n\r\n" % (hname, ws, hval), "name-ws"))
             heads.append(("ws-first-header:%s:%r" % (hname, ws), "GET @URL@ HTTP/1.1\r\n%s%s: %s\r\nHost: x\r\n\r\n" % (ws, hname, hval), "leading-ws"))
+    # an invalid Content-Length stays invalid whatever else the request says (upgrade, close, Expect, HTTP/1.0)
+    for tag, val in (("empty", ""), ("plus", "+5"), ("alpha", "abc"), ("list", "5, 5"), ("overflow", "9" * 25)):
+        for xtag, extra, ver in (("upgrade", "Connection: upgrade\r\nUpgrade: x\r\n", "1.1"), ("upgrade-list", "Connection: keep-alive, Upgrade\r\nUpgrade: x\r\n", "1.1"),
+                                 ("close", "Connection: close\r\n", "1.1"), ("expect", "Expect: 100-continue\r\n", "1.1"), ("v10", "Connection: keep-alive\r\n", "1.0")):
+            heads.append(("cl-%s+%s" % (tag, xtag), "POST @URL@ HTTP/%s\r\nHost: x\r\n%sContent-Length: %s\r\n\r\n" % (ver, extra, val), "bad-content-length"))
     for ws in (" ", "\t", "  \t "):
         heads.append(("ws-only-line-before-cl:%r" % ws, "POST @URL@ HTTP/1.1\r\nHost: x\r\n%s\r\nContent-Length: 5\r\n\r\n" % ws, "leading-ws"))
         heads.append(("ws-only-line-last:%r" % ws, "GET @URL@ HTTP/1.1\r\nHost: x\r\n%s\r\n\r\n" % ws, "leading-ws"))
@@ -1074,6 +1099,26 @@ def fam_c18(tier, seed):
         sc["tags"] = ["continue", "expect:%s" % exp, "len:%d" % n, pname, "pos:%d" % pos]
         scs.append(sc)
         k += 1
+    # two requests with an expectation on one connection, each handled on its own thread; the first is read to its end
+    # (which lets the second be parsed and delivered) but answered late: the second one's 100 Continue must wait for its
+    # turn behind the first final response -- a client reads interim responses as belonging to the next final one
+    for n1, n2 in ((5, 5), (1025, 5), (5, 2000), (0, 5)):
+        for late in (1, 0):
+            p1 = dict(_with_read(respond(200, 3), sizes=[600], to_eof=True), ans_phase=late)
+            p2 = _with_read(respond(200, 4), sizes=[600], to_eof=True)
+            m1 = Msg(method="POST", framing="cl", body_len=n1, expect="100-continue", plan=p1)
+            m2 = Msg(method="POST", framing="cl", body_len=n2, expect="100-Continue", plan=p2)
+            d, j, ln = conn([m1, m2], 0)
+            a, b = d["msgs"]
+            prog = [{"op": "send", "to": a["he"]}]
+            if n1 > 0:
+                prog += [{"op": "await", "frames": 1}, {"op": "send", "to": a["be"]}]
+            prog += [{"op": "send", "to": b["he"]}, {"op": "await", "frames": 3 if n1 > 0 else 2}, {"op": "send", "to": ln}]
+            d["prog"] = prog
+            sc = scenario("C18-%04d" % k, "C18", [(d, j, ln)], [serve("recv", "spawn")], horizon_ms=100)
+            sc["tags"] = ["continue", "two-expectations", "len:%d+%d" % (n1, n2), "late:%d" % late]
+            scs.append(sc)
+            k += 1
     # chunked bodies, and handlers that ask for the body and only go on (read, answer) much later: the interim
     # response must be there as soon as the body has been asked for, whatever the framing and the length
     for exp in ("100-continue", "100-Continue", None):
@@ -1125,6 +1170,8 @@ def corpus(tier):
     c.append(("chunked", lambda: [Msg(method="POST", framing="chunked", body_len=23, chunks=[10, 1, 12], plan=_with_read(respond(200, 3), sizes=[9], to_eof=True)), Msg()], b""))
     c.append(("chunked-ext", lambda: [Msg(method="POST", framing="chunked", body_len=17, chunks=[16, 1], chunk_opts=dict(hexcase="upper", lead0=1, ext=";a=b"), plan=_with_read(respond(200, 3), sizes=[64], to_eof=True)), Msg()], b""))
     c.append(("unread-body", lambda: [Msg(method="POST", framing="cl", body_len=1500, plan=respond(200, 3)), Msg()], b""))
+    c.append(("chunked-zero-mid", lambda: [Msg(method="POST", framing="chunked", body_len=8, chunks=[5, 3], plan=_with_read(respond(200, 3), sizes=[5, 0, 64], to_eof=True)), Msg()], b""))
+    c.append(("chunked-zero-mid3", lambda: [Msg(method="POST", framing="chunked", body_len=30, chunks=[10], plan=_with_read(respond(200, 3), sizes=[10, 0, 10, 0, 64], to_eof=True)), Msg(), Msg()], b""))
     c.append(("unread-chunked", lambda: [Msg(method="POST", framing="chunked", body_len=120, chunks=[50, 70], plan=respond(200, 3)), Msg()], b""))
     c.append(("partread-chunked", lambda: [Msg(method="POST", framing="chunked", body_len=90, chunks=[30], plan=_with_read(respond(200, 3), sizes=[10], upto=10)), Msg(), Msg()], b""))
     c.append(("dropped-chunked", lambda: [Msg(method="POST", framing="chunked", body_len=60, chunks=[60], plan=drop()), Msg()], b""))
@@ -1376,6 +1423,25 @@ def fam_c02(tier, seed):
     ]
     scs.append(flush(interp2, k, ["interpreted-headers"]))
     k += 1
+    # connections that break off in the middle of a head line, then -- served by the same pool threads -- connections
+    # with complete requests: what those deliver is exactly what was sent on THEM
+    for nab in (4, 8):
+        cc = []
+        partials = [b"GE", b"GET /x HT", b"GET /y HTTP/1.1\r\nHo", b"POST /z HTTP/1.1\r\nContent-Len", b"G", b"GET /w HTTP/1.1\r\nHost: a\r\nX-Cut: abc"]
+        for c in range(nab):
+            d, j, ln = conn([Msg(cls="close", why="C15", raw_head=partials[c % len(partials)])], c)
+            d["prog"] = [{"op": "send", "to": ln}, {"op": "close" if c % 2 == 0 else "half"}]
+            cc.append((d, j, ln))
+        for c in range(nab, nab + 12):
+            m = Msg(method=methods[c % len(methods)], headers=[("Host", "verif"), ("X-Conn", "c%d" % c), ("Accept", "*/*;q=0.%d" % (c % 9))])
+            m2 = Msg(headers=[("Host", "verif"), ("X-Second", "yes")])
+            d, j, ln = conn([m, m2], c)
+            d["prog"] = [{"op": "sleep", "ns": 2 * MS + (c % 3) * 300_000}, {"op": "send", "to": ln}]
+            cc.append((d, j, ln))
+        sc = scenario("C02-%04d" % k, "C02", cc, [serve("recv", "inline"), serve("recv", "inline")], horizon_ms=200, single=False)
+        sc["tags"] = ["head-fidelity", "after-aborted-neighbours", "aborted:%d" % nab]
+        scs.append(sc)
+        k += 1
     # the wire form of Msg.build writes "name: value"; values that start with OWS symbols are already
     # in rawv, so the single space after the colon is just one more optional whitespace
     return scs
